@@ -274,14 +274,13 @@ theorem pathsOf_spec (N : NFA) (L : List Seq) (hp : pathsOf N = some L) (h : Byt
 /-- **End to end for a dumped automaton**: if the automaton the real compiler emitted for a class has literally the
 byte-range sequences of the model (`pathsOf N = some (classSeqs ranges)`, decided per instance by `cxdrv`,
 `utf8range nfa`), then it accepts a whole input `h` iff `h` is the UTF-8 encoding of a scalar value of the class —
-up to the two deviations of `classSeqs_exact`. -/
+up to the one deviation of `classSeqs_exact`. -/
 theorem nfa_class_exact (N : NFA) (ranges : List (Nat × Nat)) (hwf : wfRanges ranges = true)
     (hp : pathsOf N = some (classSeqs ranges)) (h : Bytes) :
     Accepts N h 0 h.size ↔
       (∃ r, inR r ranges ∧ isScalar r ∧ h.toList = encode r) ∨
       (usesLarge ranges = true ∧ coversAllNonASCII (nonAsciiPart ranges) = true ∧
-        ∃ b, 0x80 ≤ b ∧ b ≤ 0xFF ∧ h.toList = [b]) ∨
-      (usesSmall ranges = true ∧ ∃ r, inR r ranges ∧ 0xD800 ≤ r ∧ r ≤ 0xDFFF ∧ h.toList = enc3 r) := by
+        ∃ b, 0x80 ≤ b ∧ b ≤ 0xFF ∧ h.toList = [b]) := by
   rw [pathsOf_spec N _ hp h, classSeqs_exact ranges hwf]
 
 theorem nfa_class_exact_of_exactClass (N : NFA) (ranges : List (Nat × Nat)) (hx : exactClass ranges = true)
